@@ -81,6 +81,7 @@ fn pick_ids(r: &mut Rng, pool: &[usize], k: usize) -> Vec<usize> { (0..k).map(|_
 
 pub struct Artefact { pub kind_family: &'static str, pub bytes: Vec<u8>, pub aux: Vec<i64>, pub label: String }
 
+thread_local! { static QUIET_GEN: std::cell::Cell<bool> = std::cell::Cell::new(false); }
 fn quietly<T>(f: impl FnOnce() -> Option<T>) -> Option<T> { std::panic::catch_unwind(std::panic::AssertUnwindSafe(f)).ok().flatten() }
 
 pub fn ipc_artefact(r: &mut Rng, stream: bool) -> Option<Artefact> {
@@ -113,7 +114,7 @@ pub fn ipc_artefact(r: &mut Rng, stream: bool) -> Option<Artefact> {
 
 pub fn flight_artefact(r: &mut Rng) -> Option<Artefact> {
     let n = 2 + r.below(6);
-    let ids = pick_ids(r, &(0..18).collect::<Vec<_>>(), 2 + r.below(2));
+    let k = 2 + r.below(2); let ids = pick_ids(r, &(0..18).collect::<Vec<_>>(), k);
     let b = if r.bool() { mk_exotic_batch(r, 2, n)? } else { mk_batch(r, &ids, n) };
     quietly(move || {
         let fds = arrow_flight::utils::batches_to_flight_data(&b.schema(), vec![b.clone()]).ok()?;
@@ -131,7 +132,7 @@ pub fn parquet_artefact(r: &mut Rng) -> Option<Artefact> {
     use parquet::file::properties::{EnabledStatistics, WriterProperties, WriterVersion};
     let n = 3 + r.below(10);
     let pool: Vec<usize> = (0..18).collect();
-    let ids = pick_ids(r, &pool, 1 + r.below(4));
+    let k = 1 + r.below(4); let ids = pick_ids(r, &pool, k);
     let b = mk_batch(r, &ids, n);
     let comp = r.below(7); let enc = r.below(6); let v2 = r.bool(); let dict = r.bool(); let stats = r.below(3); let bloom = r.chance(1, 4); let small_pages = r.bool(); let rg = r.bool();
     quietly(move || {
@@ -148,9 +149,15 @@ pub fn parquet_artefact(r: &mut Rng) -> Option<Artefact> {
         if small_pages { p = p.set_data_page_row_count_limit(3).set_write_batch_size(2).set_data_page_size_limit(16); }
         if rg { p = p.set_max_row_group_row_count(Some(4)); }
         let write = |props: WriterProperties| -> Option<Vec<u8>> {
-            let mut w = parquet::arrow::ArrowWriter::try_new(Vec::new(), b.schema(), Some(props)).ok()?;
-            w.write(&b).ok()?;
-            w.into_inner().ok()
+            // a value encoding that is illegal for some column type makes the writer fail (Err or panic): fall back
+            QUIET_GEN.with(|q| q.set(true));
+            let r = std::panic::catch_unwind(std::panic::AssertUnwindSafe(|| {
+                let mut w = parquet::arrow::ArrowWriter::try_new(Vec::new(), b.schema(), Some(props)).ok()?;
+                w.write(&b).ok()?;
+                w.into_inner().ok()
+            })).ok().flatten();
+            QUIET_GEN.with(|q| q.set(false));
+            r
         };
         let bytes = write(p.build()).or_else(|| write(WriterProperties::builder().build()))?;
         Some(Artefact { kind_family: "parquet", bytes, aux: vec![0], label: format!("pq c{comp} e{enc} v{} d{} s{stats}", v2 as u8, dict as u8) })
@@ -161,7 +168,7 @@ pub fn avro_artefact(r: &mut Rng) -> Option<Artefact> {
     use arrow_avro::compression::CompressionCodec;
     let n = 2 + r.below(8);
     let pool = [0usize, 1, 2, 3, 4, 5, 6, 7, 15];
-    let ids = pick_ids(r, &pool, 1 + r.below(4));
+    let k = 1 + r.below(4); let ids = pick_ids(r, &pool, k);
     let b = mk_batch(r, &ids, n);
     let comp = r.below(4);
     let mut r2 = r.clone();
@@ -226,8 +233,12 @@ pub fn json_artefact(r: &mut Rng) -> Artefact {
     let sch = text_schema(sid);
     let mut s = String::new();
     for _ in 0..(1 + r.below(8)) {
-        let row: Vec<String> = sch.fields().iter().filter(|f| f.name() == "c" && !f.is_nullable() || !r.chance(1, 8)).map(|f| {
-            let mut v = json_val(r, f.data_type()); if v == "null" && !f.is_nullable() { v = "7".into() } format!("\"{}\":{}", f.name(), v) }).collect();
+        let mut row: Vec<String> = Vec::new();
+        for f in sch.fields().iter() {
+            if !(f.name() == "c" && !f.is_nullable()) && r.chance(1, 8) { continue }
+            let mut v = json_val(r, f.data_type()); if v == "null" && !f.is_nullable() { v = "7".into() }
+            row.push(format!("\"{}\":{}", f.name(), v));
+        }
         s += &format!("{{{}}}\n", row.join(if r.chance(1, 6) { " , " } else { "," }));
     }
     Artefact { kind_family: "json", bytes: s.into_bytes(), aux: vec![sid], label: format!("json{sid}") }
